@@ -26,7 +26,7 @@ open Rustemo Rustemo.Table
     both algorithms) and every fuel, no `unwrap` / index / `assert!` / checked arithmetic of `LRTable::new`
     is reached — `first_sets[..]`, `nonterminals[..]`, `assert_eq!(prods.len(), 1)`, `state.actions[..]`,
     `state.gotos[..]`, the `unwrap()` of `merge_state`, `target_item.position - 1` and `self.states[..]`
-    of `propagate_follows`, `terminals[..]`, the `u32` sort key of `sort_terminals`, and the three sites of
+    of `propagate_follows`, `terminals[..]` (`sort_terminals` has no arithmetic: its key is a pair), and the three sites of
     the conflict resolution (`assert!(shifts.len() <= 1)`, `max_prior_for_term[..]`, `panic!`).  The
     outcome is a table, the diagnostic "First set empty" (`.err`), or `.fuel`. -/
 theorem construction_no_panic (g : Grammar) (hg : gwf g = true) (s : Settings) (fuel : Nat) (site : String) :
